@@ -16,6 +16,8 @@ def rollout(case):
   from brax.io import mjcf
   xml, pn = case['xml'], case['pipe']
   pipe = importlib.import_module(f'brax.{pn}.pipeline')
+  import mujoco
+  mujoco.MjModel.from_xml_string(xml)   # a document the reference compiler refuses is a harness bug, not a verdict
   try:
     sys = mjcf.loads(xml)
     T = int(case['steps'])
